@@ -85,6 +85,7 @@ type Ctx struct {
 	ufAxioms []*smt.Term
 	KnownOK  func(label, class string) bool
 	Thorough bool
+	lits     map[string]bool
 	LoopCut  bool // exceeding the unwinding bound prunes the path (stated cut) instead of failing
 	Trace    bool
 }
@@ -148,6 +149,53 @@ func (c *Ctx) addPC(t *smt.Term) {
 		return
 	}
 	c.pcs = append(c.pcs, t)
+	c.learn(t, true)
+}
+
+// learn records literals implied by an asserted constraint so that repeated
+// tests of the same condition need no solver query.
+func (c *Ctx) learn(t *smt.Term, val bool) {
+	if c.lits == nil {
+		c.lits = map[string]bool{}
+	}
+	if t.Op == smt.ONot {
+		c.learn(t.Args[0], !val)
+		return
+	}
+	if val && t.Op == smt.OAnd {
+		c.learn(t.Args[0], true)
+		c.learn(t.Args[1], true)
+		return
+	}
+	if !val && t.Op == smt.OOr {
+		c.learn(t.Args[0], false)
+		c.learn(t.Args[1], false)
+		return
+	}
+	if len(t.Key()) < 4096 {
+		c.lits[t.Key()] = val
+	}
+}
+
+// implied reports whether cond's truth value follows syntactically from the
+// path condition.
+func (c *Ctx) implied(cond *smt.Term) (val bool, ok bool) {
+	if c.lits == nil {
+		return false, false
+	}
+	neg := false
+	for cond.Op == smt.ONot {
+		cond = cond.Args[0]
+		neg = !neg
+	}
+	if len(cond.Key()) >= 4096 {
+		return false, false
+	}
+	v, ok := c.lits[cond.Key()]
+	if !ok {
+		return false, false
+	}
+	return v != neg, true
 }
 
 // evalModel evaluates t under the current model.
@@ -194,6 +242,14 @@ func (c *Ctx) Branch(cond *smt.Term, why string) bool {
 	}
 	c.pos++
 	// new decision
+	if v, ok := c.implied(cond); ok {
+		var d uint64
+		if v {
+			d = 1
+		}
+		c.decs = append(c.decs, Decision{'b', d})
+		return v
+	}
 	var side bool
 	known := false
 	if v, ok := c.evalModel(cond); ok {
